@@ -1,0 +1,414 @@
+//! Verification hooks. Only compiled with `--cfg iroh_verif`; never part of a shipped build.
+//!
+//! A deterministic simulator installs a [`Hook`] on the threads that take part in a simulated
+//! run. The code under test calls the free functions in this module at a few named sites; with no
+//! hook installed every function is a no-op and every shim in [`sync`] is the plain `std`
+//! primitive.
+
+use std::{
+    cell::RefCell,
+    future::Future,
+    pin::Pin,
+    sync::Arc,
+    task::{Context, Poll},
+};
+
+/// Kind of synchronisation operation reported to [`Hook::sync_before`].
+#[derive(Debug, Clone, Copy, PartialEq, Eq)]
+pub enum SyncOp {
+    /// `Mutex::lock`
+    Lock,
+    /// `RwLock::read`
+    Read,
+    /// `RwLock::write`
+    Write,
+    /// atomic load
+    Load,
+    /// atomic store
+    Store,
+    /// atomic compare-exchange
+    Cas,
+}
+
+/// Callbacks a simulator implements.
+pub trait Hook: Send + Sync + 'static {
+    /// Synchronous schedule point at a named site.
+    fn point(&self, _site: &'static str) {}
+    /// Number of times an async schedule point at `site` yields to the executor.
+    fn yields(&self, _site: &'static str) -> u32 {
+        0
+    }
+    /// Observable event for the run's history.
+    fn event(&self, _site: &'static str, _data: String) {}
+    /// Replacement wall-clock reading, microseconds since the unix epoch.
+    fn wall_clock_micros(&self) -> Option<u64> {
+        None
+    }
+    /// May overwrite freshly generated random bytes at `site`.
+    fn rand_override(&self, _site: &'static str, _buf: &mut [u8]) {}
+    /// Generic scripted answer for a stubbed component.
+    fn stub(&self, _site: &'static str, _arg: &str) -> Option<String> {
+        None
+    }
+    /// Whether lock/atomic shims should report to this hook.
+    fn sync_active(&self) -> bool {
+        false
+    }
+    /// Called before every intercepted synchronisation operation (a schedule point).
+    fn sync_before(&self, _op: SyncOp, _addr: usize) {}
+    /// The calling thread found the primitive at `addr` held and must wait for a release.
+    fn sync_blocked(&self, _addr: usize) {}
+    /// The primitive at `addr` was released.
+    fn sync_released(&self, _addr: usize) {}
+    /// Whether a weak compare-exchange at `addr` should fail spuriously.
+    fn cas_spurious_fail(&self, _addr: usize) -> bool {
+        false
+    }
+}
+
+thread_local! {
+    static HOOK: RefCell<Option<Arc<dyn Hook>>> = const { RefCell::new(None) };
+}
+
+/// Installs (or removes) the hook for the calling thread.
+pub fn install(hook: Option<Arc<dyn Hook>>) {
+    HOOK.with(|h| *h.borrow_mut() = hook);
+}
+
+/// Returns the hook installed on the calling thread.
+pub fn current() -> Option<Arc<dyn Hook>> {
+    HOOK.try_with(|h| h.borrow().clone()).ok().flatten()
+}
+
+/// Whether a hook is installed on the calling thread.
+pub fn active() -> bool {
+    current().is_some()
+}
+
+/// Synchronous schedule point.
+pub fn point(site: &'static str) {
+    if let Some(h) = current() {
+        h.point(site);
+    }
+}
+
+/// Records an event; `data` is only evaluated when a hook is installed.
+pub fn event(site: &'static str, data: impl FnOnce() -> String) {
+    if let Some(h) = current() {
+        h.event(site, data());
+    }
+}
+
+/// Replacement wall-clock reading, if the simulator supplies one.
+pub fn wall_clock_micros() -> Option<u64> {
+    current().and_then(|h| h.wall_clock_micros())
+}
+
+/// Lets the simulator overwrite freshly generated random bytes.
+pub fn rand_override(site: &'static str, buf: &mut [u8]) {
+    if let Some(h) = current() {
+        h.rand_override(site, buf);
+    }
+}
+
+/// Scripted answer for a stubbed component.
+pub fn stub(site: &'static str, arg: &str) -> Option<String> {
+    current().and_then(|h| h.stub(site, arg))
+}
+
+/// Async schedule point: yields to the executor as often as the simulator asks.
+pub async fn apoint(site: &'static str) {
+    let n = current().map(|h| h.yields(site)).unwrap_or(0);
+    for _ in 0..n {
+        YieldNow(false).await;
+    }
+}
+
+struct YieldNow(bool);
+
+impl Future for YieldNow {
+    type Output = ();
+    fn poll(mut self: Pin<&mut Self>, cx: &mut Context<'_>) -> Poll<()> {
+        if self.0 {
+            Poll::Ready(())
+        } else {
+            self.0 = true;
+            cx.waker().wake_by_ref();
+            Poll::Pending
+        }
+    }
+}
+
+/// Drop-in shims for `std::sync` primitives that report to the installed [`Hook`].
+pub mod sync {
+    use std::sync::{
+        LockResult, PoisonError, TryLockError,
+        atomic::{AtomicU64 as StdAtomicU64, Ordering},
+    };
+
+    use super::{SyncOp, current};
+
+    /// Shim for [`std::sync::Mutex`].
+    #[derive(Debug, Default)]
+    pub struct Mutex<T: ?Sized>(std::sync::Mutex<T>);
+
+    /// Guard of [`Mutex`].
+    #[derive(Debug)]
+    pub struct MutexGuard<'a, T: ?Sized> {
+        inner: Option<std::sync::MutexGuard<'a, T>>,
+        addr: usize,
+    }
+
+    impl<T> Mutex<T> {
+        /// See [`std::sync::Mutex::new`].
+        pub const fn new(t: T) -> Self {
+            Self(std::sync::Mutex::new(t))
+        }
+    }
+
+    impl<T: ?Sized> Mutex<T> {
+        fn addr(&self) -> usize {
+            &self.0 as *const _ as *const () as usize
+        }
+
+        /// See [`std::sync::Mutex::lock`].
+        pub fn lock(&self) -> LockResult<MutexGuard<'_, T>> {
+            let addr = self.addr();
+            let Some(h) = current().filter(|h| h.sync_active()) else {
+                return match self.0.lock() {
+                    Ok(g) => Ok(MutexGuard { inner: Some(g), addr: 0 }),
+                    Err(e) => Err(PoisonError::new(MutexGuard {
+                        inner: Some(e.into_inner()),
+                        addr: 0,
+                    })),
+                };
+            };
+            loop {
+                h.sync_before(SyncOp::Lock, addr);
+                match self.0.try_lock() {
+                    Ok(g) => return Ok(MutexGuard { inner: Some(g), addr }),
+                    Err(TryLockError::Poisoned(e)) => {
+                        return Err(PoisonError::new(MutexGuard {
+                            inner: Some(e.into_inner()),
+                            addr,
+                        }));
+                    }
+                    Err(TryLockError::WouldBlock) => h.sync_blocked(addr),
+                }
+            }
+        }
+    }
+
+    impl<T: ?Sized> std::ops::Deref for MutexGuard<'_, T> {
+        type Target = T;
+        fn deref(&self) -> &T {
+            self.inner.as_ref().expect("guard present")
+        }
+    }
+
+    impl<T: ?Sized> std::ops::DerefMut for MutexGuard<'_, T> {
+        fn deref_mut(&mut self) -> &mut T {
+            self.inner.as_mut().expect("guard present")
+        }
+    }
+
+    impl<T: ?Sized> Drop for MutexGuard<'_, T> {
+        fn drop(&mut self) {
+            drop(self.inner.take());
+            if self.addr != 0 {
+                if let Some(h) = current() {
+                    h.sync_released(self.addr);
+                }
+            }
+        }
+    }
+
+    /// Shim for [`std::sync::RwLock`].
+    #[derive(Debug, Default)]
+    pub struct RwLock<T: ?Sized>(std::sync::RwLock<T>);
+
+    /// Read guard of [`RwLock`].
+    #[derive(Debug)]
+    pub struct RwLockReadGuard<'a, T: ?Sized> {
+        inner: Option<std::sync::RwLockReadGuard<'a, T>>,
+        addr: usize,
+    }
+
+    /// Write guard of [`RwLock`].
+    #[derive(Debug)]
+    pub struct RwLockWriteGuard<'a, T: ?Sized> {
+        inner: Option<std::sync::RwLockWriteGuard<'a, T>>,
+        addr: usize,
+    }
+
+    impl<T> RwLock<T> {
+        /// See [`std::sync::RwLock::new`].
+        pub const fn new(t: T) -> Self {
+            Self(std::sync::RwLock::new(t))
+        }
+    }
+
+    impl<T: ?Sized> RwLock<T> {
+        fn addr(&self) -> usize {
+            &self.0 as *const _ as *const () as usize
+        }
+
+        /// See [`std::sync::RwLock::read`].
+        pub fn read(&self) -> LockResult<RwLockReadGuard<'_, T>> {
+            let addr = self.addr();
+            let Some(h) = current().filter(|h| h.sync_active()) else {
+                return match self.0.read() {
+                    Ok(g) => Ok(RwLockReadGuard { inner: Some(g), addr: 0 }),
+                    Err(e) => Err(PoisonError::new(RwLockReadGuard {
+                        inner: Some(e.into_inner()),
+                        addr: 0,
+                    })),
+                };
+            };
+            loop {
+                h.sync_before(SyncOp::Read, addr);
+                match self.0.try_read() {
+                    Ok(g) => return Ok(RwLockReadGuard { inner: Some(g), addr }),
+                    Err(TryLockError::Poisoned(e)) => {
+                        return Err(PoisonError::new(RwLockReadGuard {
+                            inner: Some(e.into_inner()),
+                            addr,
+                        }));
+                    }
+                    Err(TryLockError::WouldBlock) => h.sync_blocked(addr),
+                }
+            }
+        }
+
+        /// See [`std::sync::RwLock::write`].
+        pub fn write(&self) -> LockResult<RwLockWriteGuard<'_, T>> {
+            let addr = self.addr();
+            let Some(h) = current().filter(|h| h.sync_active()) else {
+                return match self.0.write() {
+                    Ok(g) => Ok(RwLockWriteGuard { inner: Some(g), addr: 0 }),
+                    Err(e) => Err(PoisonError::new(RwLockWriteGuard {
+                        inner: Some(e.into_inner()),
+                        addr: 0,
+                    })),
+                };
+            };
+            loop {
+                h.sync_before(SyncOp::Write, addr);
+                match self.0.try_write() {
+                    Ok(g) => return Ok(RwLockWriteGuard { inner: Some(g), addr }),
+                    Err(TryLockError::Poisoned(e)) => {
+                        return Err(PoisonError::new(RwLockWriteGuard {
+                            inner: Some(e.into_inner()),
+                            addr,
+                        }));
+                    }
+                    Err(TryLockError::WouldBlock) => h.sync_blocked(addr),
+                }
+            }
+        }
+    }
+
+    impl<T: ?Sized> std::ops::Deref for RwLockReadGuard<'_, T> {
+        type Target = T;
+        fn deref(&self) -> &T {
+            self.inner.as_ref().expect("guard present")
+        }
+    }
+
+    impl<T: ?Sized> Drop for RwLockReadGuard<'_, T> {
+        fn drop(&mut self) {
+            drop(self.inner.take());
+            if self.addr != 0 {
+                if let Some(h) = current() {
+                    h.sync_released(self.addr);
+                }
+            }
+        }
+    }
+
+    impl<T: ?Sized> std::ops::Deref for RwLockWriteGuard<'_, T> {
+        type Target = T;
+        fn deref(&self) -> &T {
+            self.inner.as_ref().expect("guard present")
+        }
+    }
+
+    impl<T: ?Sized> std::ops::DerefMut for RwLockWriteGuard<'_, T> {
+        fn deref_mut(&mut self) -> &mut T {
+            self.inner.as_mut().expect("guard present")
+        }
+    }
+
+    impl<T: ?Sized> Drop for RwLockWriteGuard<'_, T> {
+        fn drop(&mut self) {
+            drop(self.inner.take());
+            if self.addr != 0 {
+                if let Some(h) = current() {
+                    h.sync_released(self.addr);
+                }
+            }
+        }
+    }
+
+    /// Shim for [`std::sync::atomic::AtomicU64`].
+    #[derive(Debug, Default)]
+    pub struct AtomicU64(StdAtomicU64);
+
+    impl AtomicU64 {
+        /// See [`std::sync::atomic::AtomicU64::new`].
+        pub const fn new(v: u64) -> Self {
+            Self(StdAtomicU64::new(v))
+        }
+
+        fn addr(&self) -> usize {
+            &self.0 as *const _ as usize
+        }
+
+        /// See [`std::sync::atomic::AtomicU64::load`].
+        pub fn load(&self, order: Ordering) -> u64 {
+            if let Some(h) = current().filter(|h| h.sync_active()) {
+                h.sync_before(SyncOp::Load, self.addr());
+            }
+            self.0.load(order)
+        }
+
+        /// See [`std::sync::atomic::AtomicU64::store`].
+        pub fn store(&self, v: u64, order: Ordering) {
+            if let Some(h) = current().filter(|h| h.sync_active()) {
+                h.sync_before(SyncOp::Store, self.addr());
+            }
+            self.0.store(v, order)
+        }
+
+        /// See [`std::sync::atomic::AtomicU64::compare_exchange_weak`].
+        pub fn compare_exchange_weak(
+            &self,
+            current_v: u64,
+            new: u64,
+            success: Ordering,
+            failure: Ordering,
+        ) -> Result<u64, u64> {
+            if let Some(h) = current().filter(|h| h.sync_active()) {
+                h.sync_before(SyncOp::Cas, self.addr());
+                if h.cas_spurious_fail(self.addr()) {
+                    return Err(self.0.load(failure));
+                }
+            }
+            self.0.compare_exchange(current_v, new, success, failure)
+        }
+
+        /// See [`std::sync::atomic::AtomicU64::compare_exchange`].
+        pub fn compare_exchange(
+            &self,
+            current_v: u64,
+            new: u64,
+            success: Ordering,
+            failure: Ordering,
+        ) -> Result<u64, u64> {
+            if let Some(h) = current().filter(|h| h.sync_active()) {
+                h.sync_before(SyncOp::Cas, self.addr());
+            }
+            self.0.compare_exchange(current_v, new, success, failure)
+        }
+    }
+}
